@@ -116,7 +116,7 @@ def make_setcover(ctx, system, log, mode, weighted):
 
     def check(res):
         p, Q, nv, checks, bf = res
-        obs = [Ob(nm, ok, sig=nm.split(' ')[0]) for nm, ok in checks]
+        obs = [Ob('%s #%d' % (nm, i), ok, sig=nm.split(' ')[0]) for i, (nm, ok) in enumerate(checks)]
         ws = w if w else [1] * n
         zB = ctx.z(B)
         def feas(xs): return (set().union(*[V[i] for i in range(n) if xs[i]]) if any(xs[:n]) else set()) == Uset
@@ -180,7 +180,7 @@ def make_vertexcover(ctx, graph, mode):
     def check(res):
         p, Q, nv, dec, checks, bf = res
         nvert = len({v for e in edges for v in e})
-        obs = [Ob('num_binary_variables = number of vertices', nv == nvert)] + [Ob(nm, ok, sig=nm) for nm, ok in checks]
+        obs = [Ob('num_binary_variables = number of vertices', nv == nvert)] + [Ob('%s #%d' % (nm, i), ok, sig=nm) for i, (nm, ok) in enumerate(checks)]
         feas = lambda xs: all(u in dec[xs] or v in dec[xs] for u, v in edges)
         cost = lambda xs: B * len(dec[xs])
         obs += ground_obligations(ctx, 'VertexCover', Q, nv, False, feas, cost, strict)
@@ -226,7 +226,7 @@ def make_bilp(ctx, m, N, mode, R=2):
 
     def check(res):
         p, Q, valid, checks = res
-        obs = [Ob(nm, ok, sig=nm) for nm, ok in checks]
+        obs = [Ob('%s #%d' % (nm, i), ok, sig=nm) for i, (nm, ok) in enumerate(checks)]
         def feas(xs):
             return z3.And([ctx.z(sum((S[j][i] * xs[i] for i in range(N)), 0)) == ctx.z(b[j]) for j in range(m)])
         def cost(xs):
@@ -271,7 +271,7 @@ def make_jobseq(ctx, njobs, nworkers, log, mode, Lmax=2):
 
     def check(res):
         p, Q, nv, maxL, checks, bf = res
-        obs = [Ob(nm, ok, sig=nm) for nm, ok in checks]
+        obs = [Ob('%s #%d' % (nm, i), ok, sig=nm) for i, (nm, ok) in enumerate(checks)]
         zB = ctx.z(B)
         assume = [ctx.z(A) > zB * ctx.z(maxL)] if strict else []
         def loads(xs):
@@ -330,7 +330,7 @@ def make_graphpart(ctx, graph, mode, weighted=False):
 
     def check(res):
         p, Lq, nv, dec, checks, deg = res
-        obs = [Ob(nm, ok, sig=nm) for nm, ok in checks]
+        obs = [Ob('%s #%d' % (nm, i), ok, sig=nm) for i, (nm, ok) in enumerate(checks)]
         zB = ctx.z(B)
         assume = [ctx.z(A) > zB * min(2 * deg, nv) / 8] if strict else []
         feas = lambda xs: len(dec[xs][0]) == len(dec[xs][1])
@@ -372,7 +372,7 @@ def make_numpart(ctx, n, R, container):
 
     def check(res):
         p, Lq, valid, checks, usedef = res
-        obs = [Ob(nm, ok, sig=nm) for nm, ok in checks]
+        obs = [Ob('%s #%d' % (nm, i), ok, sig=nm) for i, (nm, ok) in enumerate(checks)]
         def diff(xs):
             t = 0
             for v, x in zip(s, xs): t = t + v * x
@@ -413,7 +413,7 @@ def make_asc(ctx, N, clen, pbc):
 
     def check(res):
         p, Lq, checks = res
-        obs = [Ob(nm, ok, sig=nm) for nm, ok in checks]
+        obs = [Ob('%s #%d' % (nm, i), ok, sig=nm) for i, (nm, ok) in enumerate(checks)]
         feas = lambda xs: all(x == 1 for x in xs) or all(x == -1 for x in xs)
         allup = tuple([1] * N)
         cst = O.spin_poly(Lq, dict(enumerate(allup)))
